@@ -108,7 +108,7 @@ func viaFile(in In, text string) (entries []changelog.ChangelogEntry, err error)
 		return entries, err
 	}
 	var pmsg interface{}
-	finished := mc.WithTimeout(20*time.Second, func() {
+	finished := mc.WithTimeout(120*time.Second, func() {
 		defer func() { pmsg = recover() }()
 		call()
 	})
@@ -121,7 +121,7 @@ func viaFile(in In, text string) (entries []changelog.ChangelogEntry, err error)
 		r.Close()
 	}
 	if !finished {
-		return nil, fmt.Errorf("harness: timeout: ParseFile on a named pipe did not return within 20 s")
+		return nil, fmt.Errorf("harness: timeout: ParseFile on a named pipe did not return within 120 s")
 	}
 	if pmsg != nil {
 		panic(pmsg)
